@@ -154,6 +154,8 @@ func Catalogue() []Prog {
 	add("attrs-many-bound", S, `<i :a="n" :b="f" :c="title" :d="cls" :e="color" :g="user.name" :h="show">z</i>`, nil, nil, false)
 	add("class-object", S, `<div class="card" :class="{active: show, off: hide, big: n}"></div>`, nil, nil, false)
 	add("style-object", S, `<div style="padding:1px;color:blue;margin:2px" :style="{color: color, backgroundColor: 'black', marginTop: '3px'}"></div>`, nil, nil, false)
+	// the same static style text merged with different bound styles: nothing one merge writes may reach the other, or the next render
+	add("style-same-static-text", S, `<i style="color:red;margin:0" :style="{color: color}">a</i><b style="color:red;margin:0" :style="{margin: '1px'}">b</b><u style="color:red;margin:0" :style="{padding: n + 'px'}">c</u>`, nil, nil, false)
 	add("v-show", S, `<p v-show="hide" style="color:red;margin:0">hidden</p><p v-show="show" style="color:red">shown</p><p v-show="hide">bare</p>`, nil, nil, false)
 	add("v-html-text", S, `<div v-html="html"></div><div v-text="html"></div><template v-html="html"></template>`, nil, nil, false)
 	add("v-pre", S, `<div v-pre>{{ title }} <b v-if="x">k</b></div>`, nil, nil, false)
